@@ -1,6 +1,7 @@
 use rusl::platform::{Fd, GidT, OpenFlags, UidT};
 
 use crate::error::{Error, Result};
+use crate::unix::fd::OwnedFd;
 
 #[derive(Debug, Copy, Clone)]
 pub struct Passwd<'a> {
@@ -20,7 +21,9 @@ pub struct Passwd<'a> {
 pub fn getpwuid_r(uid: UidT, buf: &mut [u8]) -> Result<Option<Passwd>> {
     let fd =
         unsafe { rusl::unistd::open_raw(c"/etc/passwd".as_ptr() as usize, OpenFlags::O_RDONLY)? };
-    search_pwd_fd(fd, uid, buf)
+    // Closed when the search is done, however it ends
+    let fd = OwnedFd(fd);
+    search_pwd_fd(fd.0, uid, buf)
 }
 
 #[inline]
